@@ -279,7 +279,7 @@ func (d *Decoder) Decode() (orb.Geometry, int, error) {
 
 func readByteOrderType(r io.Reader, buf []byte) (byteOrder, uint32, int, error) {
 	// the byte order is the first byte
-	if _, err := r.Read(buf[:1]); err != nil {
+	if _, err := io.ReadFull(r, buf[:1]); err != nil {
 		return 0, 0, 0, err
 	}
 
